@@ -183,6 +183,8 @@ def prog_txt(w):
         return w._command.command.OUT(prog_stdin(w))
     if isinstance(w, exit_relevant.StderrFileCreator):
         return w._command.command.ERR(prog_stdin(w))
+    if type(w).__name__ == '_WriterOfTransformed':
+        return writer_of_transformed_txt(w)
     raise ValueError('prog_txt: unexpected class %r' % (type(w),))
 
 
@@ -223,7 +225,7 @@ M.contract(P_EXI + ':_WriterBase.write',
            old=lambda output: written(output),
            modifies={'output': InPlaceBy(_havoc_out)},
            ensures={_APPENDS: lambda self, output, old: written(output) == old + prog_txt(self)},
-           raises_only=(HardErrorException,))
+           may_raise=(HardErrorException,), raises_only=(HardErrorException,))
 
 M.contract(P_EXR + ':StdoutWriter.write',
            params=dict(self=EXIT_RELEVANT_WRITER, tmp_file_space=Iface(DirFileSpaceI), output=Iface(BufferedOutI)),
@@ -231,11 +233,184 @@ M.contract(P_EXR + ':StdoutWriter.write',
            modifies={'output': InPlaceBy(_havoc_out)},
            ensures={_APPENDS: lambda self, output, old: written(output) == old + prog_txt(self),
                     'returns only if the exit code is 0': lambda self: prog_exit(self) == 0},
-           raises_only=(HardErrorException,))
+           may_raise=(HardErrorException,), raises_only=(HardErrorException,))
 
 M.contract(P_EXR + ':StderrFileCreator.create',
            params=dict(self=STDERR_FILE_CREATOR, tmp_file_space=Iface(DirFileSpaceI)), returns=Iface(PathI),
            ensures={'the new file holds exactly what the program wrote to stderr':
                     lambda self, result: file_stored(result) == prog_txt(self),
                     'returns only if the exit code is 0': lambda self: prog_exit(self) == 0},
+           may_raise=(HardErrorException,), raises_only=(HardErrorException,))
+
+
+# ============================================================================== transformed by a program (`run`, `-transformed-by PROGRAM`)
+# transformed_by_program: ContentsViaWriteTo over `_WriterOfTransformed(_TransformationWriter(...).write, contents of
+# the model)`.  The program reads the FILE of the model (C14: it decodes to the model's text) and is given the open
+# output file as stdout: the text is OUT(text of the model).
+
+from exactly_lib.impls.types.string_transformer.impl.sources import transformed_by_program as tbp            # noqa: E402
+from exactly_lib.impls.types.string_transformer.impl.sources import transformed_string_sources as tss_impl  # noqa: E402
+from exactly_lib.test_case.app_env import ApplicationEnvironment                                            # noqa: E402
+from exactly_lib.test_case.os_services import OsServices                                                    # noqa: E402
+
+P_TBP = 'exactly_lib.impls.types.string_transformer.impl.sources.transformed_by_program'
+P_TSSI = 'exactly_lib.impls.types.string_transformer.impl.sources.transformed_string_sources'
+
+
+class OsServicesI(Interface):
+    target_class = OsServices
+    attrs = {'command_executor': Iface(ExecutorI)}
+
+
+M.contract('exactly_lib.common.err_msg.std_err_contents:InitialPartReaderWithRestIndicator.read', trusted=True,
+           params=dict(self=Any_, f=Any_), returns=Str)
+M.trust('std_err_contents.InitialPartReaderWithRestIndicator.read only reads (an initial part of) the given open file, '
+        'for an error message')
+
+APP_ENV = Inst(ApplicationEnvironment, _os_services=Iface(OsServicesI), _process_execution_settings=SETTINGS,
+               _tmp_files_space=Iface(DirFileSpaceI), _mem_buff_size=Int)
+TRANSFORMATION_WRITER = Inst(tbp._TransformationWriter, environment=APP_ENV, _ignore_exit_code=Bool,
+                             transformer=Iface(CommandI))
+
+
+def transformed_txt(tw, source):
+    """what the transforming program writes: OUT of the text of the source (which it reads from the source's file)"""
+    return tw.transformer.OUT(source.txt)
+
+
+M.contract(P_TBP + ':_TransformationWriter.write',
+           params=dict(self=TRANSFORMATION_WRITER, source=SSC, output=Iface(BufferedOutI)),
+           old=lambda output: written(output),
+           modifies={'output': InPlaceBy(_havoc_out)},
+           ensures={_APPENDS: lambda self, source, output, old: written(output) == old + transformed_txt(self, source),
+                    'returns only if the exit code is 0 or ignored': lambda self, source:
+                    self._ignore_exit_code or self.transformer.EXIT(source.txt) == 0},
+           may_raise=(HardErrorException,), raises_only=(HardErrorException,))
+
+
+def _mk_writer_of_transformed(interp, name):
+    """_WriterOfTransformed as transformed_by_command makes it: the callable is the bound method `write` of a
+    _TransformationWriter"""
+    w = Inst(tss_impl._WriterOfTransformed, _source=SSC).make(interp, name)
+    tw = TRANSFORMATION_WRITER.make(interp, name + '.tw')
+    w._write_transformed = tw.write
+    return w
+
+
+from pyvc.api import Custom          # noqa: E402
+
+WRITER_OF_TRANSFORMED = Custom(_mk_writer_of_transformed)
+
+
+def writer_of_transformed_txt(w):
+    return transformed_txt(w._write_transformed.__self__, w._source)
+
+
+M.contract(P_TSSI + ':_WriterOfTransformed.write',
+           params=dict(self=WRITER_OF_TRANSFORMED, tmp_file_space=Iface(DirFileSpaceI), output=Iface(BufferedOutI)),
+           old=lambda output: written(output),
+           modifies={'output': InPlaceBy(_havoc_out)},
+           ensures={_APPENDS: lambda self, output, old: written(output) == old + writer_of_transformed_txt(self)},
+           may_raise=(HardErrorException,), raises_only=(HardErrorException,))
+
+
+# ============================================================================== the contents classes over the REAL writers
+# txt := the program's text as decoded from the file it is stored in (every reader of these classes goes through
+# that file), exactly as for ContentsViaWriteTo over an abstract writer in contracts/C14_text_value.py.
+# Every read may end in HardErrorException (the program cannot be run / exits with a non-zero code where that
+# matters): `raises_only=(HardErrorException,)`; the clauses are about the reads that return.
+
+def _starter(c):
+    if isinstance(c, contents_via_file.ContentsViaFile):
+        return c._file_creator
+    return c._writer
+
+
+def raw_txt(c):
+    """the text as the program writes it"""
+    return prog_txt(_starter(c))
+
+
+def prog_txt_of(c):
+    """the text of contents that are the output of a program"""
+    return decoded(raw_txt(c))
+
+
+def prog_cached_path_ok(c):
+    """class invariant: a cached path holds the text -- and, as it was made by the program, holds it as written"""
+    return c._as_file_path is None or (file_text(c._as_file_path) == prog_txt_of(c)
+                                       and file_stored(c._as_file_path) == raw_txt(c))
+
+
+PROGRAM_WRITER = Union(EXIT_IGNORED_WRITER, EXIT_RELEVANT_WRITER, WRITER_OF_TRANSFORMED)
+CONTENTS_VIA_PROGRAM = Inst(contents_via_write_to.ContentsViaWriteTo, _invariant=prog_cached_path_ok,
+                            _tmp_file_space=Iface(DirFileSpaceI), _writer=PROGRAM_WRITER, _file_name=Opt(Str),
+                            _as_file_path=Opt(Iface(PathI)))
+CONTENTS_VIA_STDERR_FILE = Inst(contents_via_file.ContentsViaFile, _invariant=prog_cached_path_ok,
+                                _ContentsViaFile__tmp_file_space=Iface(DirFileSpaceI),
+                                _file_creator=STDERR_FILE_CREATOR, _as_file_path=Opt(Iface(PathI)))
+
+
+def _reread(at=None):
+    if at is None:
+        d = {'re-readable: the text is what it was before': lambda self, old: prog_txt_of(self) == old}
+    else:
+        d = {'re-readable: the text is what it was before': lambda self, old: prog_txt_of(self) == old[at]}
+    d['re-readable: the class invariant holds afterwards'] = lambda self: prog_cached_path_ok(self)
+    return d
+
+
+for _q, _shape in ((P_CVWT + ':ContentsViaWriteTo', CONTENTS_VIA_PROGRAM), (P_CVF + ':ContentsViaFile', CONTENTS_VIA_STDERR_FILE)):
+    M.contract(_q + '.as_str', params=dict(self=_shape), inline=True,
+               old=lambda self: prog_txt_of(self),
+               ensures={'as_str == txt (output of the program)': lambda self, result: result == prog_txt_of(self),
+                        **_reread()},
+               raises_only=(HardErrorException,))
+    M.contract(_q + '.as_lines', params=dict(self=_shape), inline=True,
+               old=lambda self: prog_txt_of(self),
+               ensures={'lines == split_nl(txt) (output of the program)':
+                        lambda self, yielded: is_split_nl(ctx_lines(yielded), prog_txt_of(self)),
+                        **_reread()},
+               raises_only=(HardErrorException,))
+    M.contract(_q + '.tmp_file_space', params=dict(self=_shape), inline=True,
+               ensures={'the space it was given': lambda self, result: is_opaque(result)}, raises_only=())
+
+M.contract(P_CVF + ':ContentsViaFile.write_to', params=dict(self=CONTENTS_VIA_STDERR_FILE, output=Iface(BufferedOutI)),
+           inline=True, old=lambda self, output: (written(output), prog_txt_of(self)),
+           ensures={'appends txt (output of the program)':
+                    lambda self, output, old: written(output) == old[0] + prog_txt_of(self),
+                    **_reread(at=1)},
+           raises_only=(HardErrorException,))
+
+M.contract(P_CVWT + ':ContentsViaWriteTo.write_to', params=dict(self=CONTENTS_VIA_PROGRAM, output=Iface(BufferedOutI)),
+           inline=True, old=lambda self, output: (written(output), prog_txt_of(self), self._as_file_path),
+           ensures={'once the file exists: appends txt (output of the program)':
+                    lambda self, output, old: old[2] is None or written(output) == old[0] + prog_txt_of(self),
+                    'before the file exists: appends the text as the program writes it':
+                    lambda self, output, old: old[2] is not None or written(output) == old[0] + raw_txt(self),
+                    **_reread(at=1)},
+           raises_only=(HardErrorException,))
+
+M.contract(P_CWCP + ':ContentsWithCachedPathFromWriteToBase._to_file', params=dict(self=CONTENTS_VIA_PROGRAM), inline=True,
+           requires=lambda self: self._as_file_path is None,        # the only caller: as_file, when nothing is cached
+           ensures={'file decodes to txt (output of the program)': lambda self, result: file_text(result) == prog_txt_of(self),
+                    'the file stores the text as the program wrote it': lambda self, result: file_stored(result) == raw_txt(self)},
+           raises_only=(HardErrorException,))
+
+M.contract(P_CVF + ':ContentsViaFile._to_file', params=dict(self=CONTENTS_VIA_STDERR_FILE), inline=True,
+           requires=lambda self: self._as_file_path is None,
+           ensures={'file decodes to txt (output of the program)': lambda self, result: file_text(result) == prog_txt_of(self),
+                    'the file stores the text as the program wrote it': lambda self, result: file_stored(result) == raw_txt(self)},
+           raises_only=(HardErrorException,))
+
+M.contract(P_CWCP + ':StringSourceContentsWithCachedPath.as_file',
+           params=dict(self=Union(CONTENTS_VIA_PROGRAM, CONTENTS_VIA_STDERR_FILE)), inline=True,
+           old=lambda self: (prog_txt_of(self), self._as_file_path),
+           ensures={'file decodes to txt (output of the program)': lambda self, result: file_text(result) == prog_txt_of(self),
+                    'the path is cached': lambda self, result: self._as_file_path is result,
+                    'the file is made once: a cached path is kept (the program is run once)': lambda self, result, old:
+                    old[1] is None or result is old[1],
+                    'a new file stores the text as the program wrote it': lambda self, result, old:
+                    old[1] is not None or file_stored(result) == raw_txt(self),
+                    **_reread(at=0)},
            raises_only=(HardErrorException,))
